@@ -562,6 +562,8 @@ pub fn catalogue() -> (World, Vec<(&'static str, Ty)>) {
         ("Unit", Ty::Unit),
         ("One", Ty::Data(10)),
         ("named-product", named("outer", prod(vec![b.clone(), Ty::Data(1)]))),
+        ("package-of-One", Ty::Pack(Box::new(Ty::Data(10)))),
+        ("package-of-Pair", Ty::Pack(Box::new(Ty::Data(2)))),
     ];
     (World { datas }, types)
 }
